@@ -386,6 +386,11 @@ def run(tier, seed, replay=None):
                     jobs.append((fam, law, "d", lhs, rhs, na + nb, None, False))
             for law, lhs, rhs in slice_laws(u, nu):
                 jobs.append((fam, law, "d", lhs, rhs, nu, None, False))
+            # the same laws on values that come out of `@` (offsets re-based by the tensor)
+            uv = ("tensor", u, v)
+            for law, lhs, rhs in slice_laws(uv, nu + nv):
+                jobs.append((fam, law, "d", lhs, rhs, nu + nv, None, False))
+            jobs.append((fam, "dagger_dagger", "d", ("dagger", ("dagger", uv)), uv, nu + nv, None, False))
         # ---------------------------------------------------------------- sum laws, core
         n_sum = 40 if quick else 500
         for k in range(n_sum):
